@@ -33,9 +33,10 @@ type c20Shared struct {
 	points  []*Point
 	scalars []*Scalar
 	digests [][]byte
-	sigs    [][]byte // ASN.1 signatures by privs[i] over digests[i]
-	ssigs   [][]byte // Schnorr signatures by sprivs[i] over digests[i]
-	dsts    [][]byte // domain separation tags: short, 255, 256 and two different oversize ones
+	sigs    [][]byte              // ASN.1 signatures by privs[i] over digests[i]
+	ssigs   [][]byte              // Schnorr signatures by sprivs[i] over digests[i]
+	dsts    [][]byte              // domain separation tags: short, 255, 256 and two different oversize ones
+	opts    []*secec.ECDSAOptions // options objects shared by all goroutines (read-only operands)
 }
 
 func buildShared(seed int64, batch int) *c20Shared {
@@ -51,18 +52,14 @@ func buildShared(seed int64, batch int) *c20Shared {
 		s.spubs = append(s.spubs, sk.PublicKey())
 		dig := rng.Bytes(32)
 		s.digests = append(s.digests, dig)
-		sig, err := k.Sign(secec.RFC6979SHA256(), dig, nil)
-		if err != nil {
-			panic(err)
-		}
-		s.sigs = append(s.sigs, sig)
-		ssig, err := sk.Sign(&fixedReader{data: rng.Bytes(32)}, dig, nil)
-		if err != nil {
-			panic(err)
-		}
-		s.ssigs = append(s.ssigs, ssig)
+		// signatures come from the reference model, so that building the shared set does
+		// not itself perform (and thereby warm up) the operations under test
+		r0, s0, _, _, _ := oracle.RFC6979Sign(d, dig)
+		s.sigs = append(s.sigs, oracle.DERWriteSig(r0, s0))
+		s.ssigs = append(s.ssigs, oracle.BIP340Sign(d, rng.Bytes(32), dig))
 	}
 	s.dsts = [][]byte{[]byte("verif-c20"), bytes.Repeat([]byte{'a'}, 255), bytes.Repeat([]byte{'b'}, 256), append(bytes.Repeat([]byte{'c'}, 300), rng.Bytes(8)...), append(bytes.Repeat([]byte{'d'}, 1000), rng.Bytes(8)...)}
+	s.opts = []*secec.ECDSAOptions{{}, {RejectMalleable: true}, {Encoding: secec.EncodingCompact}, {Hash: crypto.SHA256, SelfVerify: true}}
 	pool := knownPointPool(seed, 3)
 	for i := 0; i < 4; i++ {
 		P := pool[(i*7)%len(pool)]
@@ -76,12 +73,17 @@ func buildShared(seed int64, batch int) *c20Shared {
 
 // c20Call performs one read-only call on shared objects; obj identifies
 // the main shared object (for the overlap statistics).
-func c20Call(s *c20Shared, rng *gen.Rng) (name string, obj int, out []byte) {
+const c20Ops = 40
+
+func c20Call(s *c20Shared, rng *gen.Rng, force int) (name string, obj int, out []byte) {
 	ki := rng.Intn(len(s.privs))
 	pi := rng.Intn(len(s.points))
 	si := rng.Intn(len(s.scalars))
 	k, pub := s.privs[ki], s.pubs[ki]
-	op := rng.Intn(38)
+	op := rng.Intn(c20Ops)
+	if force >= 0 {
+		op = force
+	}
 	switch op {
 	case 0:
 		sig, err := k.Sign(secec.RFC6979SHA256(), s.digests[ki], &secec.ECDSAOptions{Encoding: secec.SignatureEncoding(rng.Intn(3)), SelfVerify: rng.Bool()})
@@ -276,6 +278,15 @@ func c20Call(s *c20Shared, rng *gen.Rng) (name string, obj int, out []byte) {
 		o = append(o, secp256k1.NewScalar().Square(b).Bytes()...)
 		o = append(o, secp256k1.NewScalarFrom(a).Subtract(a, b).Bytes()...)
 		return "Scalar product/select/negate (private receivers)", 200 + si, o
+	case 38:
+		// one options object shared by every goroutine
+		o := s.opts[rng.Intn(2)]
+		j := rng.Intn(len(s.sigs))
+		return "Verify(shared options object)", ki, []byte{byte(boolU64(s.pubs[j].Verify(s.digests[j], s.sigs[j], o))), byte(o.Hash), byte(boolU64(o.RejectMalleable))}
+	case 39:
+		o := s.opts[2+rng.Intn(2)]
+		sig, err := k.Sign(secec.RFC6979SHA256(), s.digests[ki], o)
+		return "Sign(shared options object)", ki, append(append(sig, []byte(fmt.Sprint(err))...), byte(o.Hash), byte(o.Encoding))
 	default:
 		nk, err := secec.NewPublicKeyFromPoint(s.points[pi])
 		if err != nil {
@@ -299,7 +310,7 @@ func runC20(r *mon.Run) {
 	if r.Config == "asm" || r.Config == "purego" {
 		r.Note("not a race build: only result equality under concurrency is observed")
 	}
-	r.Require("c20:fresh-object-first-use-calls", "c20:first-use:goroutines", "c20:overlapping-call-pairs-same-object", "c20:concurrent-calls")
+	r.Require("c20:first-use-of-each-operation-kind:calls", "c20:fresh-object-first-use-calls", "c20:first-use:goroutines", "c20:overlapping-call-pairs-same-object", "c20:concurrent-calls")
 	r.Seq("c20/concurrent", 1, func(w *mon.W, _ int) {
 		// Phase 1 - first use: released from a barrier, every goroutine's first action in this
 		// process is a library call that reads the package-level tables.
@@ -349,6 +360,7 @@ func runC20(r *mon.Run) {
 				}
 				sc := scalarFromBig(dv)
 				dig := bytes.Repeat([]byte{byte(round)}, 32)
+				freshOpts := &secec.ECDSAOptions{} // Hash unspecified: shared by all goroutines of this round
 				return []func() []byte{
 					func() []byte { return pub.CompressedBytes() },
 					func() []byte { return pub.Bytes() },
@@ -374,6 +386,14 @@ func runC20(r *mon.Run) {
 					func() []byte { return new(Point).ScalarMult(sc, pt).CompressedBytes() },
 					func() []byte {
 						return []byte{byte(boolU64(pub.Equal(priv.PublicKey()))), byte(boolU64(spub.Equal(spriv.PublicKey())))}
+					},
+					func() []byte {
+						r0, s0, _, _, _ := oracle.RFC6979Sign(dv, dig)
+						return []byte{byte(boolU64(pub.Verify(dig, oracle.DERWriteSig(r0, s0), freshOpts))), byte(freshOpts.Hash)}
+					},
+					func() []byte {
+						r0, s0, _, _, _ := oracle.RFC6979Sign(dv, dig)
+						return []byte{byte(boolU64(bitcoin.VerifyASN1(pub, dig, append(oracle.DERWriteSig(r0, s0), 1))))}
 					},
 				}
 			}
@@ -408,8 +428,38 @@ func runC20(r *mon.Run) {
 			}
 		}
 		w.ClassN("c20:fresh-object-first-use-calls", int64(nFresh))
-		// Phase 2 - shared objects, many goroutines
+		// Phase 1c - the FIRST use of every operation kind in this process is concurrent: for
+		// each kind in turn all goroutines are released from a barrier and perform it at once
+		// on the shared objects (package-level state set up on first use - a default written
+		// into a package-level options struct, a lazily keyed MAC - races exactly here).
 		shared := buildShared(r.Seed, batch)
+		first1c := make([][][]byte, c20Ops+1)
+		for op := 0; op <= c20Ops; op++ {
+			first1c[op] = make([][]byte, G)
+			gate1c := make(chan struct{})
+			for g := 0; g < G; g++ {
+				wg.Add(1)
+				go func(g int) {
+					defer wg.Done()
+					rng := gen.New(r.Seed, op, "C20", "first-kind", strconv.Itoa(batch), strconv.Itoa(g))
+					<-gate1c
+					_, _, first1c[op][g] = c20Call(shared, rng, op)
+				}(g)
+			}
+			close(gate1c)
+			wg.Wait()
+		}
+		for op := 0; op <= c20Ops; op++ {
+			for g := 0; g < G; g++ {
+				rng := gen.New(r.Seed, op, "C20", "first-kind", strconv.Itoa(batch), strconv.Itoa(g))
+				name, _, want := c20Call(shared, rng, op)
+				if !bytes.Equal(first1c[op][g], want) {
+					w.Fail("c20/first-use-of-kind:"+name, fmt.Sprintf("%s as the first use of its kind in the process, performed by %d goroutines at once: goroutine %d got %x, the same call run alone returns %x", name, G, g, first1c[op][g], want), "batch", batch)
+				}
+			}
+		}
+		w.ClassN("c20:first-use-of-each-operation-kind:calls", int64((c20Ops+1)*G))
+		// Phase 2 - shared objects, many goroutines
 		var ctr int64
 		recs := make([][]c20Rec, G)
 		gate2 := make(chan struct{})
@@ -422,7 +472,7 @@ func runC20(r *mon.Run) {
 				for j := 0; j < calls; j++ {
 					rng := gen.New(r.Seed, j, "C20", "call", strconv.Itoa(batch), strconv.Itoa(g))
 					st := atomic.AddInt64(&ctr, 1)
-					name, obj, out := c20Call(shared, rng)
+					name, obj, out := c20Call(shared, rng, -1)
 					en := atomic.AddInt64(&ctr, 1)
 					my = append(my, c20Rec{name, obj, out, st, en})
 				}
@@ -436,7 +486,7 @@ func runC20(r *mon.Run) {
 		for g := 0; g < G; g++ {
 			for j := 0; j < calls; j++ {
 				rng := gen.New(r.Seed, j, "C20", "call", strconv.Itoa(batch), strconv.Itoa(g))
-				name, _, out := c20Call(shared, rng)
+				name, _, out := c20Call(shared, rng, -1)
 				opsSeen[name]++
 				w.Case(true, []byte(name), []byte(fmt.Sprint(batch, g, j)))
 				if !bytes.Equal(out, recs[g][j].out) {
